@@ -396,6 +396,11 @@ pub const EPILOGUE: &str = ".>.>.>.>.";
 /// `inner`: additionally S(2,·) — bodies may contain one inner loop (on b or c) around <= `inner`
 /// statements.
 pub fn space_s(k: usize, inner: usize, f: &mut dyn FnMut(u64, &[u8])) -> u64 {
+    space_s_range(0, k, inner, f)
+}
+
+/// Bodies of `min_n..=k` pieces only.
+pub fn space_s_range(min_n: usize, k: usize, inner: usize, f: &mut dyn FnMut(u64, &[u8])) -> u64 {
     let stmts = all_stmts();
     let mut pieces: Vec<Vec<u8>> = Vec::new();
     for s in &stmts {
@@ -468,7 +473,7 @@ pub fn space_s(k: usize, inner: usize, f: &mut dyn FnMut(u64, &[u8])) -> u64 {
         }
     }
     let mut body = Vec::new();
-    for n in 0..=k {
+    for n in min_n..=k {
         rec(&pieces, simple, n, false, &mut body, &mut idx, &mut prog, f);
     }
     idx
